@@ -159,6 +159,8 @@ func propC01(w *World, r *Report) {
 		}
 	}
 	checkPreTriggerLoop(w, r, runs, "O3")
+	checkRingHistoryForms(w, r, "O3")
+	checkMarkOnlyAfterStop(w, r, run, "O2")
 	if len(roles.Problems) > 0 {
 		r.Note("role resolution notes: %s", strings.Join(roles.Problems, "; "))
 	}
@@ -166,6 +168,22 @@ func propC01(w *World, r *Report) {
 	if !viol["O4"] {
 		r.Pass("O4", "every frame call ends with a fresh current slot", "-", fmt.Sprintf("%d quiescent states", len(run.Reach)))
 	}
+}
+
+// checkMarkOnlyAfterStop: the oldest-mark (which discards buffered pre-trigger frames) is placed only in a
+// call that actually stopped an open motion recording — never while idle (bad frame / reset / refused start).
+func checkMarkOnlyAfterStop(w *World, r *Report, run *tsRun, rule string) {
+	evs := eventsOfKind(run, "ring:SetAsOldest", -1)
+	for _, ev := range evs {
+		okc, bad, _, n := allCtx([]*Event{ev}, func(cx *Ctx) bool { return cx.Ghosts["stop:motion"] >= 1 })
+		construct := "SetAsOldest at " + callOrdinal(ev.Instr, "SetAsOldest") + " only right after an open motion recording was stopped"
+		if okc {
+			r.Pass(rule, construct, w.InstrPos(ev.Instr), fmt.Sprintf("%d contexts", n))
+		} else {
+			r.Fail(rule, construct, w.InstrPos(ev.Instr), "the buffered pre-trigger history is discarded (ring marked) although no recording was open: a trigger shortly afterwards starts with less than the full preview: "+describeCtx(bad), bad.Trace)
+		}
+	}
+	r.Check(len(evs) >= 1, "G4", "SetAsOldest call site exists", "-", fmt.Sprint(len(evs)))
 }
 
 // checkPreTriggerLoop: O3 / P2 — shape of the loop that writes the history to the motion sink.
@@ -268,6 +286,8 @@ func propC02(w *World, r *Report) {
 	}
 	r.Check(found == 1, "G4", "ring constructed once in the constructor", "-", fmt.Sprintf("%d", found))
 	checkPreTriggerLoop(w, r, runs, "P2")
+	checkRingHistoryForms(w, r, "P2")
+	checkMarkOnlyAfterStop(w, r, runs.fault, "P4")
 	// P3
 	exits := exitCtxs(runs.nofault)
 	n := 0
